@@ -100,6 +100,7 @@ class World:
         self.gold_lock = threading.Lock()
         self.gold_mem = {}
         self.compute_golden = None  # hook: (bp, toggles) -> None, computes and memoises a missing golden
+        self.timeouts_seen = {}  # blueprint -> executions that hit the wall-clock limit in this process
         self.ui_apps = {a["pkg"]: a for a in corpus.get("ui_apps", [])}
         self.ui_bps_dir = os.path.join(state_dir, "ui_bps")
         self.ui_template = os.path.join(state_dir, "ui")
@@ -458,6 +459,13 @@ class HistoryRun:
         before = self.snapshot(proj, lay)
         rows_before = None
         timeout = float(step.get("timeout", DEFAULT_TIMEOUT))
+        # once an execution of this blueprint has hit the limit in this batch (that violation is
+        # already on record), further executions of it get a fifth of the limit (at least 60 s, a
+        # normal execution takes 2-40 s): a non-terminating pavexc must not cost hours
+        with self.w.gold_lock:
+            hung_before = self.w.timeouts_seen.get(step["bp"], 0)
+        if hung_before and "timeout" not in step:
+            timeout = max(60.0, DEFAULT_TIMEOUT / 5)
         out_p = os.path.join(self.slot.dir, f"out-{self.seq}.txt")
         err_p = os.path.join(self.slot.dir, f"err-{self.seq}.txt")
         t0 = time.time()
@@ -481,6 +489,9 @@ class HistoryRun:
                 timer.cancel()
             p.returncode = 0  # reaped by wait4
         wall = time.time() - t0
+        if timed_out[0]:
+            with self.w.gold_lock:
+                self.w.timeouts_seen[step["bp"]] = self.w.timeouts_seen.get(step["bp"], 0) + 1
         if os.WIFSIGNALED(status):
             code, sig = None, os.WTERMSIG(status)
         else:
@@ -518,6 +529,7 @@ class HistoryRun:
             "exit": code,
             "signal": sig,
             "timed_out": timed_out[0],
+            "limit_s": timeout,
             "wall_s": round(wall, 3),
             "cpu_s": round(ru.ru_utime + ru.ru_stime, 3),
             "stderr": stderr[-6000:],
